@@ -559,8 +559,7 @@ func c07Deep(run *vf.Run) {
 		{"multipart-many", "multipart/form-data; boundary=b", strings.Repeat("--b\r\nContent-Disposition: form-data; name=\"a\"\r\n\r\nv\r\n", n/40) + "--b--\r\n"},
 	}
 	cfgs := []struct{ name, text string }{
-		{"request", "SecRuleEngine On\nSecRequestBodyAccess On\nSecRule ARGS|XML:/* \"@rx zzz\" \"id:1,phase:2,pass\"\n"},
-		{"request-depth-limit-high", "SecRuleEngine On\nSecRequestBodyAccess On\nSecRequestBodyJsonDepthLimit 100000\nSecRule ARGS \"@rx zzz\" \"id:1,phase:2,pass\"\n"},
+		{"request", "SecRuleEngine On\nSecRequestBodyAccess On\nSecRule REQUEST_HEADERS:Content-Type \"json\" \"id:10,phase:1,pass,nolog,ctl:requestBodyProcessor=JSON\"\nSecRule REQUEST_HEADERS:Content-Type \"xml\" \"id:11,phase:1,pass,nolog,ctl:requestBodyProcessor=XML\"\nSecRule ARGS|XML:/* \"@rx zzz\" \"id:1,phase:2,pass\"\n"},
 		{"response", "SecRuleEngine On\nSecResponseBodyAccess On\nSecResponseBodyMimeType application/json text/xml\nSecRule RESPONSE_HEADERS:content-type \"@contains json\" \"id:2,phase:3,pass,ctl:responseBodyProcessor=JSON\"\nSecRule RESPONSE_HEADERS:content-type \"@contains xml\" \"id:3,phase:3,pass,ctl:responseBodyProcessor=XML\"\nSecRule RESPONSE_ARGS|RESPONSE_XML \"@rx zzz\" \"id:1,phase:4,pass\"\n"},
 	}
 	reported := map[string]bool{}
